@@ -1,6 +1,38 @@
 """Per-property driver configuration (level claimed, generation/non-triviality rule, assumptions)."""
 
 PROPS = {
+    "C18": {
+        "level": "exploration",
+        "workers": 16,
+        "engine": "E1-pure",
+        "technique": "model-based property testing (proptest op sequences + exhaustive short sequences); oracle: fold-by-newest-identity model checked after every step",
+        "level_text": ("generated notification/RTT histories applied to the real Members exactly as handle_notifications and the RTT handler do, "
+                       "compared after every step with a fold-by-newest-timestamp model (presence, listed identity, ring from the current address, "
+                       "ring-0 target set); all sequences of <=5 operations over a 17-letter alphabet for one actor are enumerated"),
+        "level_note": "trusts the harness' model of what the SWIM layer can emit (Up only at a free address or as duplicate, Down only for an active identity, silent Rename); Members is the real code",
+        "rule": ("generated: <=40 ops over 4 actors x 3 addresses x ts 0..8 x 2 clusters: Up, Down(active identity at an address), silent Rename "
+                 "(newer identity takes over an address), Rtt(addr, ms in {0,1,3,5,6,14,40,99,150,299,300,5000}); ops whose SWIM precondition does not hold are skipped "
+                 "and counted. Non-trivial: an address change of a present member followed by RTT samples for both addresses, or a Down for an identity that is not "
+                 "the listed one (older, or newer after a Rename). Distinct = hash of the op list."),
+        "assumptions": ["equal-timestamp Ups with different address/cluster: either identity may be listed",
+                        "a member whose current address has no sample may carry any ring except 0"],
+    },
+    "C04": {
+        "level": "exploration",
+        "workers": 16,
+        "engine": "E1-pure",
+        "technique": "property-based testing (proptest) + exhaustive small-scope sweep; oracle: set model of both advertised sync states",
+        "level_text": ("generated pairs of well-formed sync states checked against a set model in both directions (completeness: every "
+                       "version / missing seq the peer holds and we lack is requested; bounds: within the peer's head, only advertised actors, "
+                       "never our own actor, partial requests inside what we miss); one-actor scope with heads<=3 swept exhaustively"),
+        "level_note": "trusts the harness' set model of 'holds'/'lacks' derived from the generated states; compute_available_needs is the real code",
+        "rule": ("generated: 1-4 actors, heads 0..=16 or unknown on either side, per version Held/Need/Partial with a hidden shared last_seq "
+                 "(0..=9) and a proper non-empty missing-seq set, the peer optionally advertising our own actor id; sweep: 1 actor, heads<=3, "
+                 "every class combination. Non-trivial: both sides have gaps AND some version is partial on both sides with different missing sets. "
+                 "Distinct = hash of the generated pair."),
+        "assumptions": ["well-formed states as generate_sync produces them: the head version itself is never in `need`; partial versions lie within the head",
+                        "requests for versions above our head are bounded by the peer's head only (the statement does not require excluding versions the peer itself needs)"],
+    },
     "C08": {
         "level": "exploration",
         "workers": 16,
